@@ -16,18 +16,27 @@ permutations of one another, partly through one caller-owned list; every call is
 A bump part is spelled [n, unit, form]; form bit 0 = explicit '+' sign (only when n >= 0), bit 1 = upper-case unit letter,
 bit 2 = the number is zero padded ('05b', '-012d', '+00h'; a zero written '-00' when there is no '+').
 A start is [ordinal, seconds, microseconds]; `raw` says in which raw type the start is handed over (0 datetime, 1 pd.Timestamp,
-2 numpy datetime64[us], 3 datetime.date - midnight starts only).
+2 numpy datetime64[us], 3 datetime.date - midnight starts only). `tz` (optional) = minutes east of UTC of a fixed-offset zone: the start is then the wall time
+[ordinal, seconds, microseconds] IN that zone (a zone-aware datetime / pd.Timestamp) and the result must be the oracle's wall time in the same zone.
 """
 import datetime
+import os
 
 from hypothesis import strategies as st
 
 from pv.core import Sub, EnumSub, Violation, HarnessError, call
 
 ASSUMPTIONS = [
-    'starts are naive instants with 1900-01-01 <= t < 2300-01-01 (one 400-year cycle, 146097 days), handed over as datetime.datetime (7 cases of 8) or as the same instant in another raw type: '
-    'pd.Timestamp, numpy datetime64[us], and (midnight only) datetime.date; for those only the VALUE of the result is judged (a naive datetime.datetime or subclass equal to the oracle), '
+    'starts are instants with 1900-01-01 <= t < 2300-01-01 (one 400-year cycle, 146097 days), handed over as datetime.datetime (7 cases of 8) or as the same instant in another raw type: '
+    'pd.Timestamp, numpy datetime64[us], and (midnight only) datetime.date; for those only the VALUE of the result is judged (a datetime.datetime or subclass equal to the oracle), '
     'because datetime arithmetic on a Timestamp gives a Timestamp; strings and numbers as starts stay the subject of C04',
+    'zone-aware starts (one case in ten of bday / fixed_units, and of the compound / session cases without a month-based part; datetime.datetime or pd.Timestamp): the zone is a FIXED offset from UTC '
+    '(datetime.timezone, +01:00 .. +14:00 / -05:00 .. -12:00, never 0), the start day / time of day / weekday of the statement are read on the wall clock of that zone, and the result must be zone-aware '
+    'with the same offset and the wall time of the oracle (with a fixed offset "exactly that much time" means the same on the wall clock and in UTC; the dt docstring promises dt(t, "1h").tzinfo == tz, dt(t, 1).tzinfo == tz); '
+    'zones with daylight-saving or historic offset changes are NOT generated: python adds a timedelta to an aware datetime on the wall clock, so "+24h" over a DST change is 23 or 25 elapsed hours and the statement does not say which is meant',
+    'zone-aware starts are bumped by m/q/y too and must keep their zone with the oracle\'s wall time (left out only with PV_C09_EXCLUDE_FIXED=1): before finding F37 was fixed in /repo the month-based units rebuilt the date from year / month / day and returned a naive datetime (replay replays/C10/F37-*.json)',
+    'results may lie outside 1900-2300 (a start within 90 days of either end of the cycle bumped outwards, 1 start in 15 lies there): the statement quantifies over START days, the library computes rather than tabulates, '
+    'so the plain datetime oracle value is demanded there as well (class result_outside_cycle)',
     'observation through dt_bump(t, bump), dt_bump(t, *bumps), dt(t, bump), dt(t, *bumps); dt(bump) "relative to today" is never generated (it reads the wall clock)',
     'n in [-60, 60] for every part; in the composition law a, b have the same sign and |a+b| <= 60 so that all three bumps are inside the quantifier',
     'm/q/y parts are only applied when the running time of day is midnight (the statement claims them at midnight only), also inside compound tenors: '
@@ -44,12 +53,16 @@ ASSUMPTIONS = [
     'sessions: start and bump objects are built once and used in 2-4 calls (prefixes / extensions / permutations / repetitions of the previous bump list, the same object twice in one call, '
     'one caller-owned list edited in place between calls); each call is judged on its own by the left fold, i.e. dt_bump / dt are taken to be functions of their arguments\' values only',
     'keywords that have no say over a scalar bump are passed in a share of the session calls and must not change the result: aggregate= (dt_bump: documented for merging equal stamps of a bumped time SERIES only), '
-    'dialect= (dt: string parsing only), tzinfo=None (dt: the default spelled out); tzinfo=<zone> and none= are not generated (they change / do not concern the claimed result)',
+    'dialect= (dt: string parsing only), tzinfo=None (dt: the default spelled out); tzinfo=<zone> and none= are not generated (they change / do not concern the claimed result); '
+    'aggregate="last", dialect="uk", tzinfo=None are the parameters\' own defaults passed explicitly (class default_spelled_out; dt hands only the bumps on to dt_bump, whose aggregate default then applies)',
     'same-date siblings: after a bump from t the same bump is asked from another time of day of the same date (half of them differ in the microsecond only) and must follow its own oracle',
     'inverse law +x then -x: fixed-length units/ints/timedeltas from any start, business days from a weekday start, m/q/y from midnight with day of month <= 28',
 ]
 
 KNOWN = {}
+
+# zone-aware starts bumped by m/q/y come back naive (the _ymd rebuild drops tzinfo together with the time of day): not fixed by the statement, see ASSUMPTIONS
+INCLUDE_AWARE_MONTH = os.environ.get('PV_C09_EXCLUDE_FIXED', '') != '1'      # F37 (dt_bump keeps the zone through m/q/y parts), fixed in /repo: generated by default
 
 DAY = datetime.timedelta(days=1)
 O_MIN = datetime.date(1900, 1, 1).toordinal()       # a Monday
@@ -74,10 +87,54 @@ def mk(tspec):
 
 
 RAWS = ['datetime', 'Timestamp', 'datetime64', 'date']
+_TZ = [None]        # the zone of the starts of the case that is running: minutes east of UTC of a fixed-offset zone (spec['tz']); None = naive starts
+ZONES = [60, -300, 330, -570, 765, 840, -720, 345]
+T_LO, T_HI = datetime.datetime(1900, 1, 1), datetime.datetime(2300, 1, 1)
+
+
+def _zone(spec):
+    """every run function starts here: which zone are the starts of this case in?"""
+    tz = spec.get('tz')
+    if tz is not None and (not isinstance(tz, int) or tz == 0 or abs(tz) >= 1440):
+        raise HarnessError('zone offset %r is not a non-zero number of minutes within a day' % (tz,))
+    _TZ[0] = tz
+    return tz
+
+
+def _tzinfo():
+    return datetime.timezone(datetime.timedelta(minutes=_TZ[0]))
+
+
+def _wall(x):
+    """the wall-clock reading of a (possibly zone-aware) datetime"""
+    return x.replace(tzinfo=None) if x.tzinfo is not None else x
+
+
+def _eq(got, exp):
+    """the same wall time (the zone of `got` is judged by _is_dt)"""
+    return _wall(got) == _wall(exp)
+
+
+def _zone_class(t0):
+    """t0 = the naive wall time of the start"""
+    if _TZ[0] is None:
+        return []
+    utc = t0 - datetime.timedelta(minutes=_TZ[0])
+    return ['zone_aware_start'] + (['zone_aware_utc_date_differs'] if utc.date() != t0.date() else [])
+
+
+def _outside(*results):
+    return ['result_outside_cycle'] if any(not T_LO <= _wall(r) < T_HI for r in results) else []
 
 
 def as_raw(t, raw):
-    """the instant t (a datetime) in another raw type: 1 pd.Timestamp, 2 numpy datetime64[us], 3 datetime.date (midnight only)"""
+    """the instant t (a datetime) in another raw type: 1 pd.Timestamp, 2 numpy datetime64[us], 3 datetime.date (midnight only);
+    in a zone-aware case t is the wall time in the case's zone and the datetime / Timestamp carries that zone"""
+    if _TZ[0] is not None:
+        if raw not in (0, 1):
+            raise HarnessError('a %s start cannot carry a zone' % RAWS[raw])
+        if t.tzinfo is None:
+            t = t.replace(tzinfo=_tzinfo())
     if not raw:
         return t
     if raw == 1:
@@ -121,15 +178,19 @@ def _bump(api, t, *bumps):
 
 
 def _is_dt(r, loose=False):
-    """a naive datetime.datetime; `loose` (raw-typed starts / pandas timedeltas only) also admits a subclass such as pd.Timestamp,
+    """a datetime.datetime, naive for a naive start and in the start's zone for a zone-aware one; `loose` (raw-typed starts / pandas timedeltas only) also admits a subclass such as pd.Timestamp,
     which is what datetime arithmetic on such operands gives - the value is what the statement fixes"""
-    if loose:
-        return isinstance(r, datetime.datetime) and r.tzinfo is None
-    return type(r) is datetime.datetime and r.tzinfo is None
+    if not (isinstance(r, datetime.datetime) if loose else type(r) is datetime.datetime):
+        return False
+    if _TZ[0] is None:
+        return r.tzinfo is None
+    return r.tzinfo is not None and r.utcoffset() == datetime.timedelta(minutes=_TZ[0])      # still zone-aware, the same offset
 
 
 def _expect(api, t, bumps, got, exp, why, loose=False):
-    if not (_is_dt(got, loose) and got == exp):
+    if not (_is_dt(got, loose) and _eq(got, exp)):
+        if _TZ[0] is not None:
+            exp, why = _wall(exp).replace(tzinfo=_tzinfo()), why + '; a zone-aware start gives the wall time of the oracle in the same zone'
         raise Violation('%s(%r, %s) = %r, expected %r (%s)' % (api, t, ', '.join(repr(b) for b in bumps), got, exp, why))
 
 
@@ -293,7 +354,9 @@ def _boundary_ordinal(x):
 
 _boundary_day = st.tuples(st.one_of(st.integers(1900, 2299), st.sampled_from([1900, 1999, 2000, 2023, 2024, 2100, 2299])),
                           st.sampled_from([0, 0, 0, 1, 1, 2, 2, 3, 3, 4] + list(range(5, 27)))).map(_boundary_ordinal)
-_ordinal = st.sampled_from([0, 0, 0, 1, 1, 1, 2]).flatmap(lambda i: (st.integers(O_MIN, O_MAX), _cal_day, _boundary_day)[i])
+# starts within 90 days of either end of the cycle (the ends themselves boosted): bumped outwards the answer lies outside 1900-2300
+_edge_day = st.one_of(st.integers(O_MIN, O_MIN + 89), st.integers(O_MAX - 89, O_MAX), st.sampled_from([O_MIN, O_MIN + 1, O_MAX - 1, O_MAX]))
+_ordinal = st.sampled_from([0, 0, 0, 1, 1, 1, 2] * 2 + [3]).flatmap(lambda i: (st.integers(O_MIN, O_MAX), _cal_day, _boundary_day, _edge_day)[i])
 
 
 def _start_class(t):
@@ -320,6 +383,14 @@ def _raw(draw, tod):
     return draw(st.sampled_from([1, 2, 3, 3] if list(tod) == [0, 0] else [1, 2]))
 
 
+@st.composite
+def _tz(draw, raw, allowed=True):
+    """zone of the start: one case in ten (datetime / Timestamp starts only) lives in a fixed-offset zone off UTC"""
+    if not allowed or raw in (2, 3) or draw(st.integers(0, 9)):
+        return None
+    return draw(st.sampled_from(ZONES))
+
+
 # ============================================================================= 1. business days (hypothesis)
 
 @st.composite
@@ -333,11 +404,20 @@ def _bday_case(draw):
         name = draw(st.sampled_from([name, name.upper(), name.title()]))
     bmag = draw(st.integers(0, NMAX - abs(n)))
     neg = n < 0 or (n == 0 and draw(st.booleans()))
+    if n == 0 and draw(st.booleans()):
+        # the falsy count from a weekend day: '0b' / 'spot' is NOT a no-op there, it rolls forward to Monday
+        wd = datetime.date.fromordinal(o).weekday()
+        if wd < 5:
+            o = o + draw(st.sampled_from([5, 6])) - wd
+            if o > O_MAX:
+                o -= 7
+    raw = draw(_raw(tod))
     return dict(t=[o, tod[0], tod[1]], n=n, form=draw(_form), name=name, k=draw(st.integers(0, 9)), b=-bmag if neg else bmag,
-                api=draw(st.sampled_from(['dt_bump', 'dt_bump', 'dt'])), sib=draw(_sibling(tod)), raw=draw(_raw(tod)))
+                api=draw(st.sampled_from(['dt_bump', 'dt_bump', 'dt'])), sib=draw(_sibling(tod)), raw=raw, tz=draw(_tz(raw)))
 
 
 def run_bday(spec):
+    _zone(spec)
     t0 = mk(spec['t'])
     raw = spec.get('raw', 0)
     loose = bool(raw)
@@ -358,17 +438,19 @@ def run_bday(spec):
     _expect(api, as_raw(t2, raw), [s], r2, o_bday(t2, n), 'business-day walk', loose)
     if not r <= r2:
         raise Violation('not monotone in t: %r <= %r but bumped by %r they give %r > %r' % (t, t2, s, r, r2))
-    cls = ['n>0' if n > 0 else 'n<0' if n < 0 else 'n=0', 'api=' + api] + _tod_class(spec['t']) + _start_class(t0) + _raw_class(raw)
+    cls = ['n>0' if n > 0 else 'n<0' if n < 0 else 'n=0', 'api=' + api] + _tod_class(spec['t']) + _start_class(t0) + _raw_class(raw) + _zone_class(t0) + _outside(r, r2)
     if spec.get('sib') is not None:
         # same date, other time of day, same bump - asked right after the first one
         ts = mk([spec['t'][0]] + spec['sib'])
         rs = _bump(api, as_raw(ts, raw if raw != 3 else 1), s)
         _expect(api, ts, [s], rs, o_bday(ts, n), 'business-day walk; asked right after the same bump from %r' % t, loose)
         cls.append(_sib_class(spec))
-    t = t0
+    t = as_raw(t0, 0)               # the plain datetime (in the case's zone, if it has one)
     weekend = t.weekday() >= 5
     if weekend:
         cls.append('start_weekend')
+        if n == 0:
+            cls.append('zero_b_from_weekend')
     else:
         # same-sign bumps compose
         a, b = n, spec['b']
@@ -414,6 +496,7 @@ def run_bday(spec):
 
 def run_bday_day(spec):
     """one start day (midnight), every n in [-60, 60]: exact result, weekday, monotone against the next day, +n then -n from a weekday"""
+    _zone({})
     o = spec['o']
     W, IDX = _weekday_table()
     t = datetime.datetime.fromordinal(o)
@@ -437,7 +520,7 @@ def run_bday_day(spec):
             back = _bump('dt_bump', r, sb)
             if back != t:
                 raise Violation('from weekday %r: %r then %r returns to %r' % (t, s, sb, back))
-    return dict(nt=True, cls=['weekday=%i' % wd])
+    return dict(nt=True, cls=['weekday=%i' % wd] + (['zero_b_from_weekend'] if wd >= 5 and spec['lo'] <= 0 <= spec['hi'] else []))
 
 
 def enum_bday_days(tier):
@@ -477,6 +560,7 @@ def _b_range(a):
 
 def run_bday_compose(spec):
     """one weekday start, one a, every b of the same sign with |a+b| <= 60"""
+    _zone({})
     t = mk(spec['t'])
     if t.weekday() >= 5:
         raise HarnessError('composition is only claimed from a weekday')
@@ -544,7 +628,8 @@ def _fixed_case(draw):
             bump.append('pd')
     else:
         bump = ['p', draw(_n), kind, draw(_form)]
-    return dict(t=[o, tod[0], tod[1]], bump=bump, api=draw(st.sampled_from(['dt_bump', 'dt'])), sib=draw(_sibling(tod)), raw=draw(_raw(tod)))
+    raw = draw(_raw(tod))
+    return dict(t=[o, tod[0], tod[1]], bump=bump, api=draw(st.sampled_from(['dt_bump', 'dt'])), sib=draw(_sibling(tod)), raw=raw, tz=draw(_tz(raw)))
 
 
 def _build_fixed(bump):
@@ -572,6 +657,7 @@ def zero_bump(bump):
 
 
 def run_fixed(spec):
+    _zone(spec)
     t0 = mk(spec['t'])
     raw = spec.get('raw', 0)
     pdtd = spec['bump'][0] == 'td' and len(spec['bump']) > 4
@@ -583,10 +669,10 @@ def run_fixed(spec):
     r = _bump(api, t, b)
     _expect(api, t, [b], r, exp, 'adds exactly %r' % delta, loose)
     back = _bump(api, r, inv)
-    if not (_is_dt(back, loose) and back == t0):
+    if not (_is_dt(back, loose) and _eq(back, t0)):
         raise Violation('%s: %r bumped by %r then by %r returns to %r' % (api, t, b, inv, back))
     kind = spec['bump'][0] if spec['bump'][0] != 'p' else 'unit=' + spec['bump'][2]
-    cls = [kind, 'api=' + api] + _tod_class(spec['t']) + _start_class(t0) + _raw_class(raw)
+    cls = [kind, 'api=' + api] + _tod_class(spec['t']) + _start_class(t0) + _raw_class(raw) + _zone_class(t0) + _outside(r)
     if pdtd:
         cls.append('pandas_timedelta')
         if abs(spec['bump'][3]) >= 1000:
@@ -639,13 +725,17 @@ def _month_case(draw):
         unit = draw(st.sampled_from('mqy'))
         per_year = 12 // MONTHS[unit]
         dy = draw(st.sampled_from([d for d in range(-(NMAX // per_year), NMAX // per_year + 1) if _is_leap(y + d)]))
-        return dict(t=[datetime.date(y, 2, 28).toordinal(), 0, 0], n=dy * per_year, unit=unit, form=draw(_form), api=draw(st.sampled_from(['dt_bump', 'dt'])), raw=draw(_raw([0, 0])))
+        raw = draw(_raw([0, 0]))
+        return dict(t=[datetime.date(y, 2, 28).toordinal(), 0, 0], n=dy * per_year, unit=unit, form=draw(_form), api=draw(st.sampled_from(['dt_bump', 'dt'])), raw=raw,
+                    tz=draw(_tz(raw, INCLUDE_AWARE_MONTH)))
+    raw = draw(_raw([0, 0]))
     return dict(t=[draw(st.one_of(_cal_day, _late_day, st.integers(O_MIN, O_MAX), _cal_day, _late_day, st.integers(O_MIN, O_MAX), _boundary_day)), 0, 0],
                 n=draw(st.one_of(_n, _n, _n, _n, st.sampled_from([-12, -8, -4, -3, -1, 1, 3, 4, 8, 12]))), unit=draw(st.sampled_from('mqy')),
-                form=draw(_form), api=draw(st.sampled_from(['dt_bump', 'dt'])), raw=draw(_raw([0, 0])))
+                form=draw(_form), api=draw(st.sampled_from(['dt_bump', 'dt'])), raw=raw, tz=draw(_tz(raw, INCLUDE_AWARE_MONTH)))
 
 
 def run_month(spec):
+    _zone(spec)
     t = mk(spec['t'])
     raw = spec.get('raw', 0)
     n, unit, form, api = spec['n'], spec['unit'], spec['form'], spec['api']
@@ -653,7 +743,7 @@ def run_month(spec):
     exp = o_months(t, n * MONTHS[unit])
     r = _bump(api, as_raw(t, raw), s)
     _expect(api, as_raw(t, raw), [s], r, exp, 'month %+i, day of month kept if it exists, otherwise excess days roll into the following month' % (n * MONTHS[unit]), bool(raw))
-    cls = ['unit=' + unit, 'api=' + api, 'n>0' if n > 0 else 'n<0' if n < 0 else 'n=0'] + _start_class(t) + _raw_class(raw)
+    cls = ['unit=' + unit, 'api=' + api, 'n>0' if n > 0 else 'n<0' if n < 0 else 'n=0'] + _start_class(t) + _raw_class(raw) + _zone_class(t) + _outside(r)
     if form & 4:
         cls.append('zero_padded')
     if 'start_feb28_nonleap' in cls and _is_leap(exp.year) and exp.month == 2:
@@ -663,7 +753,7 @@ def run_month(spec):
     if t.day <= 28:
         si = fmt(-n, unit, form & 2)
         back = _bump(api, r, si)
-        if not (_is_dt(back) and back == t):
+        if not (_is_dt(back, bool(raw) and _TZ[0] is not None) and _eq(back, t)):
             raise Violation('%s: %r (day <= 28) bumped by %r then by %r returns to %r' % (api, t, s, si, back))
         cls.append('day<=28')
     else:
@@ -681,6 +771,7 @@ def run_month(spec):
 
 def run_month_day(spec):
     """one start day (midnight), one unit, every n in [-60, 60]; inverse when day <= 28"""
+    _zone({})
     t = datetime.datetime.fromordinal(spec['o'])
     unit = spec['unit']
     k = MONTHS[unit]
@@ -744,6 +835,7 @@ NMID = len(STARTS) // 2
 
 def run_single(spec):
     """one unit, one n, one start: every spelling (sign / case / int / timedelta / named tenor) through dt_bump and dt"""
+    _zone({})
     unit, n = spec['unit'], spec['n']
     t = mk(spec['t'])
     exp = o_part(t, n, unit)
@@ -855,7 +947,9 @@ def _compound_case(draw):
     sib = None
     if not any(p[1] in MONTHS for p in parts):
         sib = draw(_sibling(tod))
-    return dict(t=[draw(_ordinal), tod[0], tod[1]], parts=parts, api=how, kinds=kinds, sib=sib, raw=draw(_raw(tod)))
+    raw = draw(_raw(tod))
+    return dict(t=[draw(_ordinal), tod[0], tod[1]], parts=parts, api=how, kinds=kinds, sib=sib, raw=raw,
+                tz=draw(_tz(raw, INCLUDE_AWARE_MONTH or not any(p[1] in MONTHS for p in parts))))
 
 
 def _as_object(part, kind):
@@ -888,6 +982,7 @@ def _order_matters(t, tod, parts, exp):
 
 
 def run_compound(spec):
+    _zone(spec)
     t0 = mk(spec['t'])
     raw = spec.get('raw', 0)
     t = as_raw(t0, raw)
@@ -922,7 +1017,7 @@ def run_compound(spec):
         raise Violation('%s(%r, %r) changed the list of bumps it was given to %r' % (api, t, snapshot, given))
     signs = set(1 if q[0] > 0 else -1 for q in parts if q[0])
     units = set(q[1] for q in parts)
-    cls = ['k=%i' % len(parts), 'how=' + how] + sorted(seen) + _tod_class(spec['t']) + _start_class(t0) + _raw_class(raw)
+    cls = ['k=%i' % len(parts), 'how=' + how] + sorted(seen) + _tod_class(spec['t']) + _start_class(t0) + _raw_class(raw) + _zone_class(t0) + _outside(r)
     if spec.get('sib') is not None:
         ts = mk([spec['t'][0]] + spec['sib'])
         rs = _bump(api, as_raw(ts, raw if raw != 3 else 1), *bumps)
@@ -989,6 +1084,7 @@ def _values(units, i, grid):
 
 def run_compound_grid(spec):
     """one unit sequence (2 or 3 parts), one start: every n combination of the grid; the spelling rotates with the combination"""
+    _zone({})
     units = spec['units']
     t = mk(spec['t'])
     if set(units) & set(MONTHS) and (spec['t'][1] or spec['t'][2]):
@@ -1109,10 +1205,12 @@ def _session_case(draw):
         if ci == 0 and draw(st.sampled_from([True] + [False] * 5)):
             kw = draw(st.sampled_from(KW[api]))
         calls.append(dict(api=api, sel=sel, how=how, start=1 if t2 is not None and draw(st.sampled_from([True, False, False])) else 0, kw=kw))
-    return dict(t=[o, tod[0], tod[1]], t2=t2, raw=draw(_raw(tod)), pool=pool, calls=calls)
+    raw = draw(_raw(tod))
+    return dict(t=[o, tod[0], tod[1]], t2=t2, raw=raw, pool=pool, calls=calls, tz=draw(_tz(raw, INCLUDE_AWARE_MONTH or not any(q[1] in MONTHS for q in pool))))
 
 
 def run_session(spec):
+    _zone(spec)
     raw = spec.get('raw', 0)
     specs = [spec['t']] + ([spec['t2']] if spec['t2'] is not None else [])
     plain = [mk(ts) for ts in specs]                                                   # what the oracle folds from
@@ -1156,14 +1254,19 @@ def run_session(spec):
             raise Violation('call %i of the session, %s: %s' % (ci + 1, _show(api, t, args, kw), v))
         why = 'call %i of %i on the same objects; parts applied left to right: %s' % (
             ci + 1, len(spec['calls']), ' then '.join('%+i%s' % (q[0], q[1]) for q in parts) or 'no bump at all')
-        if not (_is_dt(r, loose) and r == exp):
+        if not (_is_dt(r, loose) and _eq(r, exp)):
+            if _TZ[0] is not None:
+                exp, why = exp.replace(tzinfo=_tzinfo()), why + '; a zone-aware start gives the wall time of the oracle in the same zone'
             raise Violation('%s = %r, expected %r (%s)' % (_show(api, t, args if given is None else [snapshot], kw), r, exp, why))
+        cls.update(_outside(r))
         if given is not None and not _same_objects(given, snapshot):
             raise Violation('%s changed the list of bumps it was given to %r' % (_show(api, t, [snapshot], kw), given))
         # ---- classes
         if kw:
             cls.add('option_keyword')
             cls.add('option_' + c['kw'][0])
+            if c['kw'] in (['aggregate', 'last'], ['dialect', 'uk'], ['tzinfo', None]):
+                cls.add('default_spelled_out')           # the parameter's own default passed explicitly
         if prev_kw and not kw:
             cls.add('keyword_first_then_plain')
         if given is not None:
@@ -1199,7 +1302,7 @@ def run_session(spec):
         cls.add('pandas_timedelta')
     if len(set(c['how'] for c in spec['calls'])) == 1 and len(set(c['api'] for c in spec['calls'])) == 1:
         cls.add('one_call_form_throughout')
-    return dict(nt=nt, cls=sorted(cls) + _start_class(plain[0]) + _raw_class(raw))
+    return dict(nt=nt, cls=sorted(cls) + _start_class(plain[0]) + _raw_class(raw) + _zone_class(plain[0]))
 
 
 def _session_api(api):
@@ -1220,10 +1323,12 @@ SUBS = [
              'lands on weekday, monotone against t + 0..9 days, from a weekday: a then b == a+b (two calls, two bumps, compound string), +n then -n returns; '
              'named tenors in lower / upper / title case; the same bump from a sibling time on the same date (other microsecond / other time) right afterwards; '
              'calendar boundary days as starts (28 Feb of a non-leap year, 29 Feb, 30th/31st, 31 Dec, 1 Jan) boosted; one start in eight handed over as pd.Timestamp / datetime64 / date; '
-             'one spelling in seven zero padded. non-trivial = starts on a weekend or crosses one',
+             'one spelling in seven zero padded; one start in ten zone-aware (fixed offset off UTC: weekday and time of day read on the wall clock of the zone, result in the same zone); '
+             'one start in 15 within 90 days of an end of the cycle (results outside 1900-2300); a zero count from a weekend day boosted. non-trivial = starts on a weekend or crosses one',
         floor=0.4, class_floors={'start_weekend': 0.15, 'n<0': 0.25, 'intraday': 0.3, 'composed': 0.3, 'named_tenor': 0.01, 'named_tenor_mixed_case': 0.003,
                                  'sibling_same_second': 0.3, 'sibling_other_time': 0.1, 'microseconds_only': 0.03, 'n=0': 0.01,
-                                 'start_feb28_nonleap': 0.013, 'start_feb29': 0.005, 'start_dec31': 0.009, 'start_jan1': 0.06, 'start_30_31': 0.06, 'raw_start': 0.03, 'raw_start=Timestamp': 0.012, 'raw_start=datetime64': 0.012, 'raw_start=date': 0.003, 'zero_padded': 0.04}),
+                                 'start_feb28_nonleap': 0.013, 'start_feb29': 0.005, 'start_dec31': 0.009, 'start_jan1': 0.06, 'start_30_31': 0.06, 'raw_start': 0.03, 'raw_start=Timestamp': 0.012, 'raw_start=datetime64': 0.012, 'raw_start=date': 0.003, 'zero_padded': 0.04,
+                                 'zone_aware_start': 0.05, 'zone_aware_utc_date_differs': 0.035, 'result_outside_cycle': 0.038, 'zero_b_from_weekend': 0.003}),
     EnumSub('bday_all_days', enum_bday_days, run_bday_day, strategy=lambda tier: _bday_day_quick, quick=1000, chunks=64,
             rule="every one of the 146097 days 1900-01-01..2299-12-31 at midnight x every n in [-60,60] (one evaluation = one start day = 121 bumps): "
                  "dt_bump(t,'nb') == n-th entry after t in the table of all weekdays; monotone against the following day; from a weekday +n then -n returns to t"),
@@ -1233,18 +1338,19 @@ SUBS = [
     Sub('fixed_units', lambda tier: _fixed_case(), run_fixed, quick=4000, thorough=10000,
         rule="start anywhere in 1900-2299 with seconds/microseconds; bump = 'nd','nw','nh','nn','ns' (n in [-60,60], optional '+', either case), int n, or timedelta "
              '(days, seconds, microseconds; a quarter of them as pandas Timedelta, mostly with >= 1000 microseconds), numpy ints; through dt_bump and dt; oracle t + timedelta; '
-             '+x then -x returns to t; same bump from a sibling time on the same date; boundary-day starts, raw-typed starts and zero-padded spellings as in bday. '
+             '+x then -x returns to t; same bump from a sibling time on the same date; boundary-day starts, raw-typed starts, zone-aware starts, starts near the ends of the cycle and zero-padded spellings as in bday. '
              'non-trivial = non-zero bump from an intraday start or into another month',
         floor=0.3, class_floors={'int': 0.04, 'npint': 0.04, 'td': 0.05, 'negative': 0.25, 'intraday_unit_crosses_midnight': 0.02, 'zero_bump': 0.02,
                                  'sibling_same_second': 0.3, 'sibling_other_time': 0.1, 'microseconds_only': 0.03,
-                                 'pandas_timedelta': 0.011, 'pandas_timedelta_ms': 0.007, 'start_feb28_nonleap': 0.013, 'start_feb29': 0.005, 'start_dec31': 0.006, 'start_jan1': 0.06, 'start_30_31': 0.055, 'raw_start': 0.025, 'raw_start=Timestamp': 0.012, 'raw_start=datetime64': 0.01, 'raw_start=date': 0.003, 'zero_padded': 0.023}),
+                                 'pandas_timedelta': 0.011, 'pandas_timedelta_ms': 0.007, 'start_feb28_nonleap': 0.013, 'start_feb29': 0.005, 'start_dec31': 0.006, 'start_jan1': 0.06, 'start_30_31': 0.055, 'raw_start': 0.025, 'raw_start=Timestamp': 0.012, 'raw_start=datetime64': 0.01, 'raw_start=date': 0.003, 'zero_padded': 0.023,
+                                 'zone_aware_start': 0.055, 'zone_aware_utc_date_differs': 0.035, 'result_outside_cycle': 0.023}),
     Sub('month_units', lambda tier: _month_case(), run_month, quick=4000, thorough=10000,
         rule="midnight start anywhere in 1900-2299 (month ends, leap days over-weighted); 'nm','nq','ny', n in [-60,60]; oracle: month arithmetic by integer division, "
              'day kept if it exists else excess rolls into the following month (cross-checked with first-of-month + (day-1) days); inverse when day <= 28; '
              'one case in twelve starts on 28 Feb of a non-leap year and lands in the February of a leap year (must stay the 28th); whole-year multiples of n over-weighted; '
              'raw-typed starts (date / Timestamp / datetime64) and zero-padded spellings. non-trivial = day of month >= 29 and n != 0',
         floor=0.15, class_floors={'overflow': 0.04, 'day<=28': 0.3, 'feb29': 0.005,
-                                  'feb28_nonleap_to_leap_february': 0.02, 'month_end_to_longer_month': 0.017, 'start_feb28_nonleap': 0.03, 'start_feb29': 0.035, 'start_dec31': 0.007, 'start_jan1': 0.04, 'start_30_31': 0.08, 'raw_start': 0.035, 'raw_start=Timestamp': 0.007, 'raw_start=datetime64': 0.01, 'raw_start=date': 0.02, 'zero_padded': 0.045}),
+                                  'feb28_nonleap_to_leap_february': 0.02, 'month_end_to_longer_month': 0.017, 'start_feb28_nonleap': 0.03, 'start_feb29': 0.035, 'start_dec31': 0.007, 'start_jan1': 0.04, 'start_30_31': 0.08, 'raw_start': 0.035, 'raw_start=Timestamp': 0.007, 'raw_start=datetime64': 0.01, 'raw_start=date': 0.02, 'zero_padded': 0.045, 'result_outside_cycle': 0.05}),
     EnumSub('month_all_days', enum_month_days, run_month_day, strategy=lambda tier: _month_day_quick, quick=1500, chunks=64,
             rule='every one of the 146097 days at midnight x each of m, q, y x every n in [-60,60] (one evaluation = one (day, unit) = 121 bumps): exact result; '
                  '+n then -n returns to t when day <= 28. non-trivial = day of month >= 29'),
@@ -1254,12 +1360,13 @@ SUBS = [
     Sub('compound', lambda tier: _compound_case(), run_compound, quick=6000, thorough=30000,
         rule='two- and three-part tenors over all nine unit letters, n in [-60,60] each, optional + / upper case per part, as one string or as separate bumps, '
              'as one list argument (list left unchanged, also after the sibling call) or as bumps of mixed types (str / int / numpy int / timedelta / pandas Timedelta) passed separately or inside the one list, through dt_bump and dt; '
-             'a share with a part repeated verbatim (adjacent or first == last), with zero parts, and with a sibling start on the same date; '
+             'a share with a part repeated verbatim (adjacent or first == last), with zero parts, and with a sibling start on the same date; zone-aware starts (tenors without a month-based part) and starts near the ends of the cycle as in bday; '
              'oracle: left fold of the single-part oracles. non-trivial = parts of both signs',
         floor=0.2, class_floors={'has_month': 0.3, 'has_b': 0.15, 'k=3': 0.3, 'month_overflow': 0.006, 'b_from_weekend': 0.03, 'later_part_negative': 0.3,
                                  'duplicate_part': 0.06, 'duplicate_first_last': 0.01, 'zero_part': 0.04, 'order_matters': 0.08, 'bump_types_mixed': 0.06,
                                  'non_string_bump_first': 0.02, 'how=list': 0.03, 'how=dt_list': 0.03, 'sibling_same_second': 0.1, 'sibling_other_time': 0.03,
-                                 'how=list_mixed': 0.02, 'how=dt_list_mixed': 0.02, 'list_of_mixed_types': 0.038, 'pandas_timedelta': 0.03, 'start_feb28_nonleap': 0.009, 'start_feb29': 0.0045, 'start_dec31': 0.007, 'start_jan1': 0.06, 'start_30_31': 0.055, 'raw_start': 0.033, 'raw_start=Timestamp': 0.01, 'raw_start=datetime64': 0.008, 'raw_start=date': 0.012, 'zero_padded': 0.07}),
+                                 'how=list_mixed': 0.02, 'how=dt_list_mixed': 0.02, 'list_of_mixed_types': 0.038, 'pandas_timedelta': 0.03, 'start_feb28_nonleap': 0.009, 'start_feb29': 0.0045, 'start_dec31': 0.007, 'start_jan1': 0.06, 'start_30_31': 0.055, 'raw_start': 0.033, 'raw_start=Timestamp': 0.01, 'raw_start=datetime64': 0.008, 'raw_start=date': 0.012, 'zero_padded': 0.07,
+                                 'zone_aware_start': 0.02, 'zone_aware_utc_date_differs': 0.013, 'result_outside_cycle': 0.05}),
     EnumSub('compound_grid', enum_compound_grid, run_compound_grid, strategy=lambda tier: _compound_grid_quick(), quick=60, chunks=32,
             rule='ALL two-part tenors (81 ordered unit pairs x 121^2 values of n) from 4 starts each, and all 729 ordered unit triples x 9^3 values of n from 8 starts each '
                  '(one evaluation = one unit sequence and start with all its n combinations; an h/n/s part in front of a month-based part is restricted to whole days: '
@@ -1269,6 +1376,7 @@ SUBS = [
              'bump lists are prefixes, extensions, permutations or repetitions of the previous call\'s (0-3 bumps per call; the same object may occur twice in a call); bumps as separate '
              'arguments, as a fresh list, as one compound string, or in ONE caller-owned list object that the caller edits in place between calls (must come back unchanged each time); '
              'the first call may carry a keyword that has no say over a scalar bump (aggregate=, dialect=, tzinfo=None), the later ones come plain; every call is judged by the left fold '
-             'of the single-part oracles from its own start, so no result may depend on an earlier call. non-trivial = two consecutive calls from the same start object with different expected results',
-        floor=0.18, class_floors={'shared_list': 0.12, 'shared_list_edited_between_calls': 0.07, 'option_keyword': 0.07, 'option_aggregate': 0.055, 'option_dialect': 0.014, 'option_tzinfo': 0.003, 'keyword_first_then_plain': 0.07, 'empty_list': 0.011, 'one_bump_in_a_list': 0.057, 'list_of_mixed_types': 0.05, 'no_bump': 0.033, 'same_bump_object_twice': 0.09, 'prefix_of_previous_call': 0.08, 'extends_previous_call': 0.12, 'permutation_of_previous_call': 0.09, 'permutation_changes_result': 0.012, 'same_bumps_again': 0.064, 'other_start_object': 0.063, 'pandas_timedelta': 0.048, 'one_call_form_throughout': 0.16, 'raw_start': 0.03, 'calls=4': 0.054, 'start_feb28_nonleap': 0.007, 'start_feb29': 0.003, 'start_dec31': 0.0055, 'start_jan1': 0.05, 'start_30_31': 0.054}),
+             'of the single-part oracles from its own start, so no result may depend on an earlier call; zone-aware start objects when no bump of the pool is month-based. non-trivial = two consecutive calls from the same start object with different expected results',
+        floor=0.18, class_floors={'shared_list': 0.12, 'shared_list_edited_between_calls': 0.07, 'option_keyword': 0.07, 'option_aggregate': 0.055, 'option_dialect': 0.014, 'option_tzinfo': 0.003, 'keyword_first_then_plain': 0.07, 'empty_list': 0.011, 'one_bump_in_a_list': 0.057, 'list_of_mixed_types': 0.05, 'no_bump': 0.033, 'same_bump_object_twice': 0.09, 'prefix_of_previous_call': 0.08, 'extends_previous_call': 0.12, 'permutation_of_previous_call': 0.09, 'permutation_changes_result': 0.012, 'same_bumps_again': 0.064, 'other_start_object': 0.063, 'pandas_timedelta': 0.048, 'one_call_form_throughout': 0.16, 'raw_start': 0.03, 'calls=4': 0.054, 'start_feb28_nonleap': 0.007, 'start_feb29': 0.003, 'start_dec31': 0.0055, 'start_jan1': 0.05, 'start_30_31': 0.054,
+                                  'zone_aware_start': 0.028, 'zone_aware_utc_date_differs': 0.016, 'result_outside_cycle': 0.045, 'default_spelled_out': 0.036}),
 ]
